@@ -38,9 +38,14 @@ def matches(query, full, determine_namespace=True):
 
 
 def less_nested(c, t):
-    """c is t itself or a less nested form of t: c's components are a suffix of t's."""
-    a, b = tokens(c), tokens(t)
-    return len(a) <= len(b) and b[len(b) - len(a):] == a
+    """c is t itself or a less nested form of t: same task name, c's namespace components are a suffix of t's and
+    c's group components are a suffix of t's (so `ns::x` is a less nested form of `ns::g:x`, and `x` of both)."""
+    cns, cgr, cnm = parse(c)
+    tns, tgr, tnm = parse(t)
+
+    def suffix(a, b):
+        return len(a) <= len(b) and b[len(b) - len(a):] == a
+    return cnm == tnm and suffix(cns, tns) and suffix(cgr, tgr)
 
 
 def resolve(query, fulls, determine_namespace=True):
